@@ -17,65 +17,65 @@ package signal
 // ---------------------------------------------------------------------------
 
 //@ func channels.Channels(c)
-//@   props C01 C02 C03 C05 C14 C15 C20
+//@   props C01 C02 C03 C05 C10 C12 C14 C15 C18 C19 C20
 //@   pure
 //@   ensures result == c
 
 //@ func bitDepth.BitDepth(bd)
-//@   props C05 C06 C07 C08 C09 C13
+//@   props C05 C06 C07 C08 C09 C13 C18 C19
 //@   pure
 //@   ensures result == bd
 
 //@ func channels.BufferIndex(c, channel, idx)
-//@   props C01 C02 C14
+//@   props C01 C02 C14 C18 C19
 //@   theory defined
 //@   pure
 //@   requires inInt64(bi(c, 0, idx)) && inInt64(bi(c, channel, idx))
 //@   ensures result == bi(c, channel, idx)
 
 //@ func Buffer.Len(b)
-//@   props C01 C03 C04 C05 C20
+//@   props C01 C03 C04 C05 C10 C12 C18 C19 C20
 //@   pure
 //@   requires b >= 0
 //@   ensures result == len(b.data)
 
 //@ func Buffer.Cap(b)
-//@   props C03 C04 C10 C20
+//@   props C03 C04 C10 C12 C15 C18 C19 C20
 //@   pure
 //@   requires b >= 0
 //@   ensures result == cap(b.data)
 
 //@ func Buffer.Sample(b, i)
-//@   props C01 C03 C05 C14
+//@   props C01 C03 C05 C12 C14 C18 C19
 //@   pure
 //@   requires b >= 0 && 0 <= i && i < len(b.data)
 //@   ensures result == at(b, i)
 
 //@ func Buffer.SetSample(b, i, v)
-//@   props C01 C03 C05 C14
+//@   props C01 C03 C05 C10 C12 C14 C18 C19
 //@   requires b >= 0 && 0 <= i && i < len(b.data)
 //@   ensures stored(b, i, v)
 //@   modifies H(b)
 
 //@ func min(v1, v2)
-//@   props C01 C05 C20
+//@   props C01 C05 C18 C19 C20
 //@   pure
 //@   ensures result == min(v1, v2)
 
 //@ func mustSame(a, b, panicStr)
-//@   props C15
+//@   props C01 C03 C05 C10 C15
 //@   insts int
 //@   panics-iff a != b
 
 //@ func Buffer.Capacity(b)
-//@   props C02 C03 C04 C13 C14 C20
+//@   props C02 C03 C04 C12 C13 C14 C18 C19 C20
 //@   theory defined
 //@   pure
 //@   requires wf(b)
 //@   ensures result == ite(b.channels == 0, 0, fdiv(cap(b.data), b.channels))
 
 //@ func Buffer.Length(b)
-//@   props C01 C02 C04 C05 C13 C14 C20
+//@   props C01 C02 C03 C04 C05 C12 C13 C14 C18 C19 C20
 //@   mode realfloat
 //@   theory defined
 //@   pure
@@ -84,7 +84,7 @@ package signal
 //@   ensures result == ite(b.channels == 0, 0, cdiv(len(b.data), b.channels))
 
 //@ func ChannelLength(sliceLen, channels)
-//@   props C01 C20
+//@   props C01 C05 C20
 //@   mode realfloat
 //@   theory defined
 //@   pure
